@@ -17,8 +17,11 @@ import (
 
 func init() { register("C10", runC10) }
 
-// c10ModelVariant: "0" = typematch + xtypes as they stand.
-const c10ModelVariant = "1"
+// c10ModelVariant selects the Lean model the correspondence compares Pattern.MatchIdentical against:
+// "0" = typematch and xtypes.Identical before their repairs, "1" = old matcher + repaired xtypes.Identical,
+// "2" = the code as it is now (fixes/c10-*.diff: backtracking matcher, aliases looked through, variadic / generic
+// signatures and function-local types rejected; repaired xtypes.Identical), "3" = new matcher + old identity.
+const c10ModelVariant = "2"
 
 const (
 	c10VarPrefix    = "ᐸvarᐳ"
@@ -332,6 +335,10 @@ var c10KernelPatterns = []string{
 	"func($*_, map[$k]int, $k)", "struct{$*_; $*_}", "struct{atmpl.Template; $*_}", "struct{$_; $_; $_}", "struct{}",
 	"interface{}", "interface{ $*_ }", "error", "unsafe.Pointer", "$_", "$x", "[]byte", "[]uint8", "rune",
 	"map[string]atmpl.Template", "map[atmpl.Option]$v", "[2]func($*_) ($_, error)", "[2]func([]int) (string, error)", "(int)", "*(*p.Tree)",
+	// a split point (or a binding) chosen early has to be revised because of something matched later, outside the list
+	"func($*_, $t, $*_) $t", "func($*_, $t, $*_) ($*_, $t)", "func($*_, [$n]int, $*_) [$n]string", "struct{func($*_, $t, $*_); $t}",
+	"map[struct{$*_; $t; $*_}]$t", "struct{$*_; $t; $*_; func($t)}", "func($*_, [$n]$t, $*_) [$n]$t", "func($*_, $_) $*_", "func($_, $*_, $_)",
+	"func($_, $*_, $t, $*_) $t", "struct{$_; $*_; $t; $*_; func($t)}", "map[$k]func($_, $*_, $k, $*_)",
 }
 
 // strings for the parse-only stream: valid and invalid spellings
@@ -500,6 +507,49 @@ func runC10(c *Ctx) error {
 			nt := types.NewNamed(obj, types.Typ[types.Int], nil)
 			tys = append(tys, typ{"syn:" + path + ".T", nt, enc.MustEnc(nt)})
 		}
+		nSyn := 6
+		// synthetic types on which only one split of a `$*_` (not the first that fits locally) leads to a match
+		{
+			v := func(t types.Type) *types.Var { return types.NewVar(0, nil, "", t) }
+			fn := func(ps []types.Type, rs []types.Type) *types.Signature {
+				var pv, rv []*types.Var
+				for _, t := range ps {
+					pv = append(pv, v(t))
+				}
+				for _, t := range rs {
+					rv = append(rv, v(t))
+				}
+				return types.NewSignatureType(nil, nil, nil, types.NewTuple(pv...), types.NewTuple(rv...), false)
+			}
+			st := func(ts ...types.Type) *types.Struct {
+				var fs []*types.Var
+				for i, t := range ts {
+					fs = append(fs, types.NewField(0, nil, fmt.Sprintf("F%d", i), t, false))
+				}
+				return types.NewStruct(fs, nil)
+			}
+			tInt, tStr, tBool := types.Typ[types.Int], types.Typ[types.String], types.Typ[types.Bool]
+			for i, t := range []types.Type{
+				fn([]types.Type{tInt, tStr}, []types.Type{tStr}),
+				fn([]types.Type{tInt, tStr, tBool}, []types.Type{tInt, tStr}),
+				fn([]types.Type{types.NewArray(tInt, 2), types.NewArray(tInt, 3)}, []types.Type{types.NewArray(tStr, 3)}),
+				st(fn([]types.Type{tInt, tStr}, nil), tStr),
+				types.NewMap(st(tInt, tStr, tBool), tStr),
+				st(tInt, tStr, tBool, fn([]types.Type{tStr}, nil)),
+				fn([]types.Type{types.NewArray(tInt, 2), types.NewArray(tStr, 3)}, []types.Type{types.NewArray(tStr, 3)}),
+				fn([]types.Type{tInt, tStr}, []types.Type{tInt}),
+				fn([]types.Type{tBool, tInt, tStr}, []types.Type{tStr}),
+				st(tBool, tInt, tStr, fn([]types.Type{tStr}, nil)),
+				types.NewMap(tStr, fn([]types.Type{tBool, tInt, tStr}, nil)),
+			} {
+				sx, err := enc.Enc(t)
+				if err != nil {
+					return err
+				}
+				tys = append(tys, typ{fmt.Sprintf("syn:bt%d", i), t, sx})
+				nSyn++
+			}
+		}
 		// --- which (pattern, type) pairs
 		type pair struct{ p, t int }
 		var pairs []pair
@@ -556,7 +606,7 @@ func runC10(c *Ctx) error {
 		}
 		type viol struct {
 			pat, ty, impl string
-			in           map[string]interface{}
+			in            map[string]interface{}
 		}
 		var viols []viol
 		for ri, row := range rows {
@@ -633,7 +683,7 @@ func runC10(c *Ctx) error {
 			}
 		}
 		if gi < 2 || c.Thorough {
-			if err := c10E2E(c, g, tys[:len(tys)-6], func(i int) (string, types.Type, string) { return tys[i].name, tys[i].t, tys[i].sx }, errObj); err != nil {
+			if err := c10E2E(c, g, tys[:len(tys)-nSyn], func(i int) (string, types.Type, string) { return tys[i].name, tys[i].t, tys[i].sx }, errObj); err != nil {
 				return err
 			}
 		}
@@ -645,50 +695,45 @@ func runC10(c *Ctx) error {
 
 var c10E2EPatterns = []string{
 	"tmpl.Template", "*tmpl.Template", "map[$t]$t", "func($*_, int)", "func(int, []string)", "struct{$*_; int}", "[]$x", "[$n][$n]int",
-	"func($*_, $t, $t)", "interface{ $*_ }", "p.MyInt", "error",
+	"func($*_, $t, $t)", "interface{ $*_ }", "p.MyInt", "error", "func($*_, $t, $*_) $t", "struct{$*_; $t; $*_; $t}",
 }
 
-var c10Engine *ruleguard.Engine
+var c10Engines []*ruleguard.Engine
 
 // c10E2E observes MatchIdentical through the public API: Where(m["x"].Type.Is(pattern)) over the main file.
-// The rules import ext/alpha/tmpl (name tmpl) and example.com/m/p (name p).
+// The rules import ext/alpha/tmpl (name tmpl) and example.com/m/p (name p).  One engine per pattern: the runner
+// stops at the first rule that accepts a node (across groups), so patterns sharing an engine would mask each other.
 func c10E2E(c *Ctx, g *c14Group, tys interface{}, at func(i int) (string, types.Type, string), errObj int) error {
 	res := c.Res
 	if len(g.calls) == 0 {
 		return nil
 	}
-	if c10Engine == nil {
-		var sb strings.Builder
-		sb.WriteString("func r(m dsl.Matcher) {\n\tm.Import(\"ext/alpha/tmpl\")\n\tm.Import(\"example.com/m/p\")\n")
+	if c10Engines == nil {
 		for i, p := range c10E2EPatterns {
-			fmt.Fprintf(&sb, "\tm.Match(\"implS($x)\").Where(m[\"x\"].Type.Is(%q)).Report(\"P%d\")\n", p, i)
+			src := fmt.Sprintf("func r%d(m dsl.Matcher) {\n\tm.Import(\"ext/alpha/tmpl\")\n\tm.Import(\"example.com/m/p\")\n\tm.Match(\"implS($x)\").Where(m[\"x\"].Type.Is(%q)).Report(\"P%d\")\n}\n", i, p, i)
+			e, err := hx.LoadRules(hx.RulesFile(src))
+			if err != nil {
+				return fmt.Errorf("load: %v", err)
+			}
+			c10Engines = append(c10Engines, e)
 		}
-		sb.WriteString("}\n")
-		// one rule group per pattern would stop at the first match; separate groups report independently
-		var all strings.Builder
-		for i, p := range c10E2EPatterns {
-			fmt.Fprintf(&all, "func r%d(m dsl.Matcher) {\n\tm.Import(\"ext/alpha/tmpl\")\n\tm.Import(\"example.com/m/p\")\n\tm.Match(\"implS($x)\").Where(m[\"x\"].Type.Is(%q)).Report(\"P%d\")\n}\n", i, p, i)
-		}
-		e, err := hx.LoadRules(hx.RulesFile(all.String()))
-		if err != nil {
-			return fmt.Errorf("load: %v", err)
-		}
-		c10Engine = e
 	}
 	s := g.s[0]
 	t := &hx.Target{Fset: s.Fset, File: s.Files["example.com/m/p"], Info: s.Info, Pkg: s.Main, Name: "example.com/m/p/file.go"}
-	reports, pk, frame, err := hx.Run(c10Engine, t, hx.RunOpts{})
-	if err != nil {
-		return err
-	}
-	if pk != "" {
-		res.Violate(hx.Violation{Signature: "Engine.Run:" + pk + ":" + frame, What: "Run panicked on the end-to-end file",
-			Input: map[string]interface{}{"group": g.gi}, Impl: pk, Spec: "no panic"})
-		return nil
-	}
 	got := map[string]bool{}
-	for _, r := range reports {
-		got[fmt.Sprintf("%d/%s", r.Line, r.Message)] = true
+	for _, e := range c10Engines {
+		reports, pk, frame, err := hx.Run(e, t, hx.RunOpts{})
+		if err != nil {
+			return err
+		}
+		if pk != "" {
+			res.Violate(hx.Violation{Signature: "Engine.Run:" + pk + ":" + frame, What: "Run panicked on the end-to-end file",
+				Input: map[string]interface{}{"group": g.gi}, Impl: pk, Spec: "no panic"})
+			return nil
+		}
+		for _, r := range reports {
+			got[fmt.Sprintf("%d/%s", r.Line, r.Message)] = true
+		}
 	}
 	// the model's parse of the same patterns under the rules' import table
 	itab := "(((n:tmpl p:ext/alpha/tmpl) (n:p p:example.com/m/p)))"
